@@ -60,6 +60,7 @@ var mutantCatalogue = map[string][]mutant{
 		{Name: "getter tests bit n+1", File: "common/bytes/bytes.go", Old: "return input&(1<<n) != 0\n}\n\nfunc getI32Bit", New: "return input&(1<<(n+1)) != 0\n}\n\nfunc getI32Bit"},
 	},
 	"C11": {
+		{Name: "offset parse error ignored", File: "risc/parser.go", Old: "\timm, err := strconv.ParseInt(immString, 10, 32)\n\tif err != nil {", New: "\timm, err := strconv.ParseInt(immString, 10, 32)\n\tif err == nil {"},
 		{Name: "validateArgs(2) before elements[2]", File: "risc/parser.go", Old: "validateArgs(3, elements", New: "validateArgs(2, elements"},
 		{Name: "ParseInt 64 bits", File: "risc/parser.go", Old: "strings.TrimSpace(elements[2]), 10, 32)", New: "strings.TrimSpace(elements[2]), 10, 64)"},
 		{Name: "label stores pc+4", File: "risc/parser.go", Old: "= pc\n", New: "= pc + 4\n"},
@@ -248,6 +249,8 @@ var mutantCatalogue = map[string][]mutant{
 		{Name: "always flush on a taken branch", File: "proc/mvp5/bu.go", Old: "return bu.expectation != pc", New: "return true"},
 	},
 	"C01": {
+		{Name: "reference runner applies memory writes as register writes", File: "risc/runner.go", Old: "\t\tif exe.RegisterChange {", New: "\t\tif !exe.RegisterChange {"},
+		{Name: "architectural register write dropped", File: "risc/app.go", Old: "\tctx.Registers[exe.Register] = exe.RegisterValue\n", New: ""},
 		{Name: "forwarding stop dropped", File: "proc/mvp6-3/cu.go", Old: "\t\tu.forwarding++\n\t\treturn true, true\n", New: "\t\tu.forwarding++\n\t\treturn true, false\n"},
 		{Name: "dispatched instruction stays queued", File: "proc/mvp6-3/cu.go", Old: "\t\t\tu.pendings.Remove(elem)\n", New: ""},
 		{Name: "side jobs dropped instead of kept", File: "common/coroutine/coroutine.go", Old: "\t\treturn f(a)\n\t})\n\tif length == 0 {", New: "\t\treturn !f(a)\n\t})\n\tif length == 0 {"},
